@@ -44,13 +44,22 @@ def clear(node, root, mask):
         for op in n['ops']:
             if 'outcome' in op:
                 continue
-            if op['a'] == 'DIRSIZE':
-                return False
             if op.get('file', {}).get('output'):
                 return False
             if mask and op['p'] == root and op['kind'] in ('list_dir', 'walk', 'walkb'):
                 return False
     return True
+
+
+def ghost_dirsize(node, files):
+    """The subtree asked for the size of a directory that does not exist when
+    the rebuild starts (it only comes into being, virtually, while the record
+    of the build_file call that creates it is replayed)."""
+    for n in subtree(node):
+        for op in n['ops']:
+            if 'outcome' not in op and op['a'] == 'DIRSIZE' and files.get(op['p'], (None,))[0] != 'd':
+                return True
+    return False
 
 
 def trace_equal(a, b):
